@@ -9,7 +9,7 @@ Line-protocol front end of the C12/C13 model (shared by `Driver/C12.lean` and `D
   `{"pre":DESIGN,"post":DESIGN|null,"groups":[[ids]]|null,"rdy":[SRC],"uses":[USE],"en":[SRC],
     "args":[[k,w]],"pairs":[[a,b]],"conn":[{"w":id,"r":id}],"nin":n,"dins":[w],"nus":n}`
   `DESIGN` as in `Driver/Core.lean` plus per body `"sim":[ids]`, `"ind":[ids]` (pre-merge) and
-  `"porder"` (post-merge, the order the real manager produced); `SRC = ["one"] | ["in",k]`;
+  `"porder"` (post-merge, the order the real manager produced); `SRC = ["one"] | ["in",k] | ["not",SRC] | ["and",SRC,SRC]`;
   `USE = {"p":parent,"br":[branch ids],"conds":[k | -1],"nb":0|1,"prio":0|1}`.
   The PRE-merge design, the uses, `rdy`, `en`, `args` are the model's input; `post`/`groups` are what the
   real `_simultaneous` produced and are only compared with the model's output (`merge=`).
@@ -64,10 +64,15 @@ def parseDesignS (j : Json) : Except String Design := do
   let bodies ← (← jArr j "bodies").toList.mapM parseBodyS
   return ⟨bodies, ← parseNats (← jArr j "trans"), ← parseNats (← jArr j "meths")⟩
 
-def parseSrc (j : Json) : Except String Simul.Src := do
+partial def parseSrc (j : Json) : Except String Simul.Src := do
   match (← j.getArr?).toList with
   | [k] => if (← k.getStr?) == "one" then return .one else throw "src"
-  | [k, n] => if (← k.getStr?) == "in" then return .inp (← n.getNat?) else throw "src"
+  | [k, n] =>
+    match ← k.getStr? with
+    | "in" => return .inp (← n.getNat?)
+    | "not" => return .not (← parseSrc n)
+    | _ => throw "src"
+  | [k, a, b] => if (← k.getStr?) == "and" then return .and (← parseSrc a) (← parseSrc b) else throw "src"
   | _ => throw "src"
 
 def parseUse (j : Json) : Except String Simul.Use := do
